@@ -69,6 +69,11 @@ def base_models(feature, arg=None, extra=None):
             # refers to fields by name must not turn the measure's column into the dimension's expression (NULL amounts make AVG / MIN / COUNT differ)
             dims.append(Dimension(name="amount", type="numeric", sql="COALESCE(amount, 0)"))
             mets += [Metric(name="avg_amt", agg="avg", sql="amount"), Metric(name="min_amt", agg="min", sql="amount"), Metric(name="n_amt", agg="count", sql="amount")]
+        elif f == "composite_fk_reordered":
+            # a composite-key target and a relationship whose key PAIRS are listed in another order than the target's declared key: the pairing
+            # (orders.id = customers.order_id AND orders.customer_id = customers.id) must survive, not just the column sets
+            rels = [Relationship(name="customers", type="many_to_one", foreign_key=["id", "customer_id"], primary_key=["order_id", "id"])]
+            extra_customers_pk = ["id", "order_id"]
         elif f == "user_text":
             # user-written SQL text that happens to contain punctuation other formats use as syntax (a regex character class holds "_.")
             dims.append({"regex_class": Dimension(name="st_clean", type="categorical", sql="regexp_replace(status, '[a-z0-9_.-]', '')")}[a])
@@ -82,14 +87,15 @@ def base_models(feature, arg=None, extra=None):
             rels = [Relationship(name="customers", type=a, foreign_key=("customer_id" if a == "many_to_one" else "order_id"))]
         elif f == "segment":
             segs = [Segment(name="seg_a", sql="{model}.status = 'a'")]
-    customers = Model(name="customers", table="customers", primary_key="id", dimensions=[Dimension(name="region", type="categorical")], metrics=[Metric(name="cnt", agg="count")])
+    customers = Model(name="customers", table="customers", primary_key=(["id", "order_id"] if any(f == "composite_fk_reordered" for f, _ in [(feature, arg)] + ([extra] if extra else [])) else "id"),
+                      dimensions=[Dimension(name="region", type="categorical")], metrics=[Metric(name="cnt", agg="count")])
     orders = Model(name="orders", dimensions=dims, metrics=mets, relationships=rels, segments=segs, **kw)
     return [customers, orders]
 
 
 FEATURES = [("agg", a) for a in AGGS] + [("count_star", None), ("count_col_named", None), ("filtered", None), ("expression", None), ("dim_type", "boolean"), ("dim_type", "numeric"), ("dim_type", "categorical_expr"),
             ("granularity", "hour"), ("granularity", "week"), ("granularity", "month"), ("composite_pk", None), ("sql_model", None),
-            ("relationship", "many_to_one"), ("relationship", "one_to_many"), ("relationship", "one_to_one"), ("segment", None), ("key_dim_alias", None), ("dim_shadows_column", None)]
+            ("relationship", "many_to_one"), ("relationship", "one_to_many"), ("relationship", "one_to_one"), ("segment", None), ("key_dim_alias", None), ("dim_shadows_column", None), ("composite_fk_reordered", None)]
 PAIRS = [(("agg", "avg"), ("filtered", None)), (("agg", "count_distinct"), ("composite_pk", None)), (("filtered", None), ("sql_model", None)), (("expression", None), ("dim_type", "boolean")),
          (("agg", "min"), ("granularity", "month")), (("count_col_named", None), ("filtered", None)), (("segment", None), ("sql_model", None)), (("agg", "max"), ("relationship", "one_to_many"))]
 
@@ -204,16 +210,19 @@ def cell(key, feats):
         if a != b:
             problems.append(("dimension_value:%s" % dmn.name, "type %s gran %s sql %r -> type %s gran %s sql %r" % (dmn.type, dmn.granularity, dmn.sql, d2.type, d2.granularity, d2.sql)))
     # a value that depends on the RELATIONSHIP: the measure by a dimension of the related model (only when the relationship and that dimension survive)
-    if r2 and "customers" in g2.models and g2.models["customers"].get_dimension("region") and o2.get_metric("m"):
+    if r2 and "customers" in g2.models and g2.models["customers"].get_dimension("region") and (o2.get_metric("m") or o2.get_dimension("status")):
+        # the measure by the related dimension; when the measure is not kept on the model (formats that move metrics elsewhere), the pairs of
+        # (orders.status, customers.region) that the join produces
+        xq = dict(metrics=["orders.m"], dimensions=["customers.region"]) if o2.get_metric("m") else dict(metrics=[], dimensions=["orders.status", "customers.region"])
         try:
-            a = dbutil.canon_rows(L1.conn.execute(L1.compile(metrics=["orders.m"], dimensions=["customers.region"])).fetchall())
+            a = dbutil.canon_rows(L1.conn.execute(L1.compile(**xq)).fetchall())
         except Exception:
             a = None
         if a is not None:
             try:
-                b = dbutil.canon_rows(L2.conn.execute(L2.compile(metrics=["orders.m"], dimensions=["customers.region"])).fetchall())
+                b = dbutil.canon_rows(L2.conn.execute(L2.compile(**xq)).fetchall())
                 if a != b:
-                    problems.append(("join_value", "orders.m by customers.region: %s -> %s" % (a[:4], b[:4])))
+                    problems.append(("join_value", "%s by customers.region: %s -> %s" % (xq["metrics"] or xq["dimensions"][:1], a[:4], b[:4])))
             except Exception as e:
                 problems.append(("join_broken", str(e)[:90].replace("\n", " ")))
     for s in o1.segments:
